@@ -58,7 +58,7 @@ const ruleCommon = "runs are generated from VERIF_SEED (plan tape + schedule tap
 
 var props = []*propSpec{
 	{ID: "C01", Level: "exploration", Clauses: []string{"C01."},
-		Scens:  []scenSpec{{Name: "upload", Weight: 1}},
+		Scens:  []scenSpec{{Name: "upload", Weight: 3}, {Name: "read", Weight: 1}},
 		QuickS: 45, ThorS: 900, Rule: ruleCommon},
 	{ID: "C03", Level: "exploration", Clauses: []string{"C03."},
 		Scens:  []scenSpec{{Name: "conc", Weight: 1}},
@@ -72,6 +72,12 @@ var props = []*propSpec{
 }
 
 func init() {
+	props = append(props, &propSpec{ID: "C02", Level: "exploration", Clauses: []string{"C02."},
+		Scens:  []scenSpec{{Name: "read", Weight: 1}},
+		QuickS: 40, ThorS: 600, Rule: ruleCommon})
+	props = append(props, &propSpec{ID: "C05", Level: "exploration", Clauses: []string{"C05."},
+		Scens:  []scenSpec{{Name: "lru", Weight: 1}},
+		QuickS: 40, ThorS: 600, Rule: ruleCommon})
 	props = append(props, &propSpec{ID: "C08", Level: "fault_enumeration", Clauses: []string{"C08.", "C07.deadlock", "C14.panic"},
 		Scens:  []scenSpec{{Name: "crash", Opt: map[string]string{"enum": "1"}, Weight: 3, Batch: 2}, {Name: "crash", Weight: 1, Batch: 30}},
 		QuickS: 50, ThorS: 900,
